@@ -1,5 +1,6 @@
 import BasicModel.Proto
 import BasicModel.Model.Listing
+import BasicModel.Model.Lex
 import BasicModel.Spec.MapSpec
 /-
   `LST <op>;<op>;...` — one request is one whole history on a fresh `Listing`.
@@ -117,6 +118,14 @@ def runLstOp (l : Listing) (words : List String) : Option (Listing × String) :=
     | _, .error e => pure (l, showErrOrFault e)
   | ["clear"] => pure (l.clear, "ok")
   | ["empty"] => pure (l, if l.isEmpty then "ok 1" else "ok 0")
+  | ["load", t] =>
+    match l.loadStr Lex.lex (strOfHex t) with
+    | .ok l' => pure (l', "ok")
+    | .error e => pure (l, showErrOrFault e)
+  | ["load"] =>
+    match l.loadStr Lex.lex [] with
+    | .ok l' => pure (l', "ok")
+    | .error e => pure (l, showErrOrFault e)
   | _ => none
 
 def dumpLst (l : Listing) : String :=
